@@ -435,6 +435,12 @@ fn run_op(c: &mut Case, t: &[&str]) -> String {
             c.db.scan_workspace_with_excludes(&c.root.clone(), &pats);
             format!("ok order={}", observed_order(c))
         }
+        "wsroot" => {
+            // the workspace folder is a SUB-directory of the case root (files above it reach the index only
+            // through the editor): the cases re-analyse every file below it explicitly afterwards
+            c.db.scan_workspace(&c.abs(t[1]));
+            "ok".into()
+        }
         "newdb" => {
             c.db = FixtureDatabase::new();
             "ok".into()
